@@ -324,7 +324,7 @@ UNIT = dict(
     'composition across buckets, blocks and threads (global linearizability) is a lemma, not proved here: the unit proves the per-bucket sequential specification of every writer from any quiescent state, the writer guarantee, and the reader\'s validation under arbitrary interference',
     'the rely of the reader (an occupied slot changes only under a delete marker naming it; a marker is cleared / the item count shrinks only with a version bump; an unlinked extension item is not rewritten before the version moved on from the version at which it was unlinked; a moved item stays reachable at its source until the version moves) is exactly what obligation vhm.remove.version_bumped proves of every writer path; that it makes a validated read a linearizable read is the informal step',
     'bucket version counter does not wrap around during one try_get_value call (27 bits)',
-    'stub allocate_block: returns null or a zeroed block with 2n buckets whose extension pool is all free and not smaller than the old one (operator new + memset + list construction not lowered)',
+    'stub allocate_block: returns null or a zeroed block with 2n buckets whose extension pool is all free and not smaller than the old one - proved for the real text by unit vhm_alloc (vhm.alloc.header / free_lists / region / aligned) for power-of-two sizeof(extension_bucket)',
     'stubs guard_ptr/acquire_guard/new node: raw pointers; constructing a guard_ptr in compare_key may throw (hazard pointer exhaustion), in store_item it is assumed not to (the fresh node would leak - outside C10); guard_ptr::reclaim of an empty guard is a null dereference (true of every xenium reclaimer)',
     'allocate/free_extension_item are contract stubs in the writer runs; the contracts are proved for the real text by runs alloc / free (extension items per extension bucket: 2 instead of 10, a shape parameter)',
     'managed_ptr modes (MT, MN): the Value objects stored under different keys are distinct, non-null objects and the object being inserted is not yet in the map (the map retires the Value object on erase: storing one object twice, or a null pointer, is a client error)',
